@@ -8,17 +8,10 @@ from sa.core import AnalysisError, Repo, Report, call_name, kwarg, parent, unpar
 from sa.rules.common import calls_named, rtext, enclosing
 from sa.selftest import Edit, Variant
 
-EXPLANATION = (
-    "Set-theoretic exactness is Skia's (not decided). Decided necessary conditions: (1) at every path-operation call the shape being clipped "
-    "is paired with its fill_rule and every operand coming from a clipPath with its clip_rule, positionally; (2) the clip region is the union "
-    "of the clipPath's children, intersected with the clipPath's own clip-path, each child transformed child-first, then clipPath, then the "
-    "referencing element's CTM, with <use> children resolved before the children are read; (3) a child's clip tuple extends its parent's, is "
-    "resolved - unconditionally, not behind a memo keyed without the CTM - with the child's own CTM, under the guard 'absent, empty or none'; "
-    "(4) in _simplify every emitted piece is intersected with all stacked clips after stroking and transforming, clip-path is deleted; (5) "
-    "every shape read for rendering is read with its inherited attributes (sibling call sites of from_element agree) - the site in "
-    "_resolve_clip_path does not (known finding F10); the boolean-operation plumbing itself is C13 and is re-checked here."
-)
-ASSUMPTIONS = ["Skia's intersection/union are exact for the fill types given (C13 decides that they are given correctly)"]
+from sa.texts import T as _T
+
+EXPLANATION = _T["C03"]["explanation"] + " Not decided: " + _T["C03"]["not_decided"] + "."
+ASSUMPTIONS = _T["C03"]["assumptions"]
 P = "C03"
 
 
